@@ -422,6 +422,60 @@ def ir_bookkeeping(R):
                 if out[0] != out[1]: print('REPLAY-CONFIRMED')
                 """, body=srcs[chain]) if user_kind == "return" else None
             R.check(f"IR.traverse[chain{chain},{user_kind}]", L + "::BasicBlock._Traverse", ok, detail=det, replay=rp)
+    # the use lists need not be current when a traversal starts: an earlier pass (RewriteFunctionArgAccess) exchanges instructions for copies
+    f, bb = fresh_function()
+    src = val(bb)
+    st = ir.VariableAccessInstruction(I, "v", ir.VariableAccessScope.FUNCTION_LOCAL)
+    st.SetStore(src)
+    bb.AddInstruction(st)
+    ld = bb.AddInstruction(ir.VariableAccessInstruction(I, "v", ir.VariableAccessScope.FUNCTION_LOCAL))
+    user = ir.VariableAccessInstruction(I, "p0", ir.VariableAccessScope.FUNCTION_ARGUMENT)
+    user.SetStore(ld)
+    bb.AddInstruction(user)
+    f.UpdateUses()
+    copies = {}
+
+    def exchange(instrs):
+        out = []
+        for i in instrs:
+            if i is user:
+                copies[id(i)] = i.WithVariable(0)
+                out.append(copies[id(i)])
+            else:
+                out.append(i)
+        return out
+
+    bb._Traverse(exchange)
+    newuser = copies[id(user)]
+
+    def fwd(instrs):
+        bb.ReplaceUses(ld, st.Store)
+        bb.Replace(ld, None)
+        return instrs
+
+    try:
+        bb._Traverse(fwd)
+        ok = newuser in bb.Instructions and newuser.Store is src and ld not in bb.Instructions
+        det = f"after forwarding, the exchanged store has operand {'the stored value' if newuser.Store is src else repr(newuser.Store)}"
+    except Exception as e:
+        ok, det = False, f"raised {type(e).__name__}: {e}"
+    R.check("IR.traverse.after-exchange", L + "::BasicBlock._Traverse", ok, detail=det,
+            replay=script("""
+                import io, contextlib
+                from nsl import Compiler, LinearIR, VM
+                src = 'export function f(int a) -> int { int b; b = 5; a = b; return a; }'
+                out = []
+                for opt in (False, True):
+                    try:
+                        with contextlib.redirect_stdout(io.StringIO()):
+                            r = Compiler.Compiler().Compile(src, {'optimize': opt})
+                        l = LinearIR.Linker(); l.AddModule(r.IRModule)
+                        out.append(VM.VirtualMachine(l.Link()).Invoke('f', a=1))
+                    except BaseException as e:
+                        out.append('raised %s: %s' % (type(e).__name__, e))
+                print(src, 'unoptimised / optimised:', out)
+                if out[0] != out[1]: print('REPLAY-CONFIRMED')
+                """))
     # replacement by another instruction keeps the reference and the position
     f, bb = fresh_function()
     a = val(bb)
